@@ -47,6 +47,7 @@ impl<SlotType: Copy+Debug, const BUFFER_SIZE: usize, const METRICS: bool, const 
     #[inline(always)]
     fn push(&self, element: SlotType) -> bool {
         let mutable_self = unsafe { &mut *(*(self as *const Self as *const std::cell::UnsafeCell<Self>)).get() };
+        vp!("pl.op");
         self.concurrency_guard.lock();
         if self.head >= BUFFER_SIZE as u32 {
             if METRICS {
@@ -70,6 +71,7 @@ impl<SlotType: Copy+Debug, const BUFFER_SIZE: usize, const METRICS: bool, const 
     #[inline(always)]
     fn pop(&self) -> Option<SlotType> {
         let mutable_self = unsafe { &mut *(*(self as *const Self as *const std::cell::UnsafeCell<Self>)).get() };
+        vp!("pl.op");
         self.concurrency_guard.lock();
         if self.head == 0 {
             if METRICS {
